@@ -3,7 +3,8 @@ use super::common::*;
 use crate::gen::{Aff, TSpec, TreeGen};
 use crate::hist::{GSpec, Init, Op};
 use crate::report::{par_cases, CaseOut, Report, Tier, Violation};
-use crate::snap::{conform, snap};
+use crate::snap::{conform_face, snap};
+use affinitree::pwl::afftree::AffTree;
 use serde_json::json;
 
 #[derive(Clone, Debug)]
@@ -21,6 +22,8 @@ pub fn user_trees(d: usize) -> Vec<TSpec> {
         vec![
             // partial: defined only for y <= 1
             TSpec::Dec(r1(&[1.0], 1.0), vec![None, Some(TSpec::Leaf(r1(&[2.0], 0.0)))]),
+            // partial: defined only for y > 0 (the only child hangs on label 0)
+            TSpec::Dec(r1(&[1.0], 0.0), vec![Some(TSpec::Leaf(r1(&[1.0], 1.0))), None]),
             // y <= 0 ? (y >= -1 ? y : -1) : 3
             TSpec::Dec(
                 r1(&[1.0], 0.0),
@@ -30,6 +33,7 @@ pub fn user_trees(d: usize) -> Vec<TSpec> {
     } else {
         vec![
             TSpec::Dec(r1(&[1.0, -1.0], 0.0), vec![None, Some(TSpec::Leaf(Aff::identity(2)))]),
+            TSpec::Dec(r1(&[1.0, 0.0], 1.0), vec![Some(TSpec::Leaf(Aff::identity(2))), None]),
             TSpec::Dec(
                 r1(&[1.0, 0.0], 0.0),
                 vec![Some(TSpec::Leaf(Aff::new(vec![vec![0.0, 1.0], vec![1.0, 0.0]], vec![0.0, 0.0]))), Some(TSpec::Dec(r1(&[0.0, 1.0], 0.0), vec![None, Some(TSpec::Leaf(Aff::identity(2)))]))],
@@ -61,6 +65,9 @@ pub fn ops_for(d: usize, tier: Tier) -> Vec<Op> {
     for u in user_trees(d) {
         gs.push(GSpec::User(u));
     }
+    // operands with cached feasibility states of their own
+    gs.push(GSpec::Eliminated(Box::new(GSpec::HardTanh(0))));
+    gs.push(GSpec::Eliminated(Box::new(GSpec::User(user_trees(d)[1].clone()))));
     let mut ops = vec![Op::Elim];
     for g in gs {
         ops.push(Op::Compose(g.clone(), false));
@@ -125,39 +132,152 @@ pub fn inits(tier: Tier) -> Vec<Init> {
     v
 }
 
-pub fn cases(tier: Tier) -> Vec<Case> {
-    let mut out = vec![];
+/// history length limit for an initial tree
+pub fn limit_for(init: &Init, tier: Tier) -> usize {
     let maxlen = match tier { Tier::Quick => 3, Tier::Thorough => 4 };
-    for init in inits(tier) {
-        let simple = matches!(init, Init::FromAff(_) | Init::FromPoly(..));
-        let lim = if simple { maxlen } else { maxlen - 1 };
-        fn rec(init: &Init, d: usize, ops: &mut Vec<Op>, lim: usize, tier: Tier, out: &mut Vec<Case>) {
-            if !ops.is_empty() && ops.last().unwrap().prunes() {
-                out.push(Case { init: init.clone(), ops: ops.clone() });
-            }
-            if ops.len() == lim {
-                return;
-            }
-            for op in ops_for(d, tier) {
-                if !op.fits(d) {
-                    continue;
-                }
-                // two eliminations in a row are C06's business
-                if op == Op::Elim && ops.last() == Some(&Op::Elim) {
-                    continue;
-                }
-                let nd = op.out_dim(d);
-                if nd > 2 {
-                    continue;
-                }
-                ops.push(op);
-                rec(init, nd, ops, lim, tier, out);
-                ops.pop();
-            }
+    let simple = matches!(init, Init::FromAff(_) | Init::FromPoly(..));
+    if simple { maxlen } else { maxlen - 1 }
+}
+
+/// successors of a history (dimension-compatible operations)
+pub fn next_ops(d: usize, ops: &[Op], tier: Tier) -> Vec<Op> {
+    ops_for(d, tier)
+        .into_iter()
+        .filter(|op| op.fits(d) && !(*op == Op::Elim && ops.last() == Some(&Op::Elim)) && op.out_dim(d) <= 2)
+        .collect()
+}
+
+/// enumerate all cases of one initial tree (histories ending in a pruning operation)
+pub fn for_each_history(init: &Init, tier: Tier, f: &mut dyn FnMut(&[Op])) {
+    let lim = limit_for(init, tier);
+    fn rec(d: usize, ops: &mut Vec<Op>, lim: usize, tier: Tier, f: &mut dyn FnMut(&[Op])) {
+        if !ops.is_empty() && ops.last().unwrap().prunes() {
+            f(ops);
         }
-        rec(&init, init.out_dim(), &mut vec![], lim, tier, &mut out);
+        if ops.len() == lim {
+            return;
+        }
+        for op in next_ops(d, ops, tier) {
+            let nd = op.out_dim(d);
+            ops.push(op);
+            rec(nd, ops, lim, tier, f);
+            ops.pop();
+        }
+    }
+    rec(init.out_dim(), &mut vec![], lim, tier, f);
+}
+
+/// every `stride`-th case of the whole space (used by C11)
+pub fn cases_strided(tier: Tier, stride: usize) -> Vec<Case> {
+    let mut out = vec![];
+    let mut k = 0usize;
+    for init in inits(tier) {
+        for_each_history(&init, tier, &mut |ops| {
+            if k % stride == 0 {
+                out.push(Case { init: init.clone(), ops: ops.to_vec() });
+            }
+            k += 1;
+        });
     }
     out
+}
+
+pub fn cases(tier: Tier) -> Vec<Case> {
+    cases_strided(tier, 1)
+}
+
+/// Incremental exploration of all histories of one initial tree: the pruned and the un-pruned
+/// track are carried along, every history ending in a pruning operation is judged.
+pub fn run_init(init: &Init, first: usize, tier: Tier) -> CaseOut {
+    let mut out = CaseOut::default();
+    let lim = limit_for(init, tier);
+    let p = init.build();
+    let u = init.build();
+    fn rec(init: &Init, p: &AffTree<2>, u: &AffTree<2>, d: usize, ops: &mut Vec<Op>, lim: usize, tier: Tier, out: &mut CaseOut, first: Option<usize>) {
+        if ops.len() == lim {
+            return;
+        }
+        for (oi, op) in next_ops(d, ops, tier).into_iter().enumerate() {
+            if let Some(f) = first {
+                if oi != f {
+                    continue;
+                }
+            }
+            let nd = op.out_dim(d);
+            let mut p2 = p.clone();
+            let mut u2 = u.clone();
+            ops.push(op.clone());
+            out.add("real_executions", 1);
+            let before = if op == Op::Elim { Some(snap(p)) } else { None };
+            match op.run(&mut p2, d) {
+                Err(msg) => {
+                    if op.prunes() {
+                        let rec = json!({"init": init.to_json(), "ops": ops.iter().map(|o| o.to_json()).collect::<Vec<_>>()});
+                        out.violate(Violation::new(format!("{} panicked: {msg}", op.name()), rec).tag("kind", "panic").tag("op", op.name()));
+                    }
+                }
+                Ok(()) => {
+                    let uok = match op.unpruned() {
+                        Some(uo) => uo.run(&mut u2, d).is_ok(),
+                        None => true,
+                    };
+                    if uok {
+                        if op.prunes() {
+                            out.add("programs", 1);
+                            judge(init, ops, &p2, &u2, before.as_ref(), out);
+                        }
+                        rec(init, &p2, &u2, nd, ops, lim, tier, out, None);
+                    }
+                }
+            }
+            ops.pop();
+        }
+    }
+    rec(init, &p, &u, init.out_dim(), &mut vec![], lim, tier, &mut out, Some(first));
+    out
+}
+
+fn judge(init: &Init, ops: &[Op], p: &AffTree<2>, u: &AffTree<2>, before_last: Option<&crate::snap::Snap>, out: &mut CaseOut) {
+    let rec = || json!({"init": init.to_json(), "ops": ops.iter().map(|o| o.to_json()).collect::<Vec<_>>()});
+    let sp = snap(p);
+    let su = snap(u);
+    let mut conf = 0u64;
+    let mut conf_err = None;
+    let judged = compare_pruned(&su, &sp, out, &mut |face| {
+        let (n, e) = conform_face(p, &sp, face, true);
+        conf += n;
+        if let Some(e) = e {
+            conf_err = Some(e)
+        }
+    });
+    out.add("traces_validated_against_impl", conf);
+    if let Some(e) = conf_err {
+        out.violate(Violation::new(format!("real evaluator disagrees with documented routing: {e}"), rec()).tag("kind", "conformance"));
+    }
+    let lastop = ops.last().unwrap();
+    for m in judged.iter().take(2) {
+        let mut r = rec();
+        r["mismatch"] = m.to_json();
+        r["pruned_arena"] = sp.to_json();
+        r["unpruned_arena"] = su.to_json();
+        out.violate(
+            Violation::new(format!("pruned != unpruned after {}: {}", opname(lastop), mismatch_summary(m)), r)
+                .tag("kind", "function").tag("op", opname(lastop)).tag("what", match m.kind { crate::regions::MismatchKind::Defined(a, _) => if a { "became_defined" } else { "became_undefined" }, _ => "value" }),
+        );
+    }
+    if *lastop == Op::Elim {
+        let sb = before_last.unwrap();
+        for (tag, msg) in structural_elim(sb, &sp).into_iter().take(2) {
+            let mut r = rec();
+            r["before_arena"] = sb.to_json();
+            r["after_arena"] = sp.to_json();
+            out.violate(Violation::new(format!("infeasible_elimination: {msg}"), r).tag("kind", "structure").tag("what", tag));
+        }
+        out.add("structural_checks", 1);
+    }
+    if out.sample.is_none() && ops.len() >= 2 {
+        out.sample = Some(json!({"history": rec(), "nodes_pruned": sp.nodes.len(), "nodes_unpruned": su.nodes.len()}));
+    }
 }
 
 pub fn run_case(c: &Case) -> CaseOut {
@@ -190,10 +310,12 @@ pub fn run_case(c: &Case) -> CaseOut {
     let su = snap(&u);
     let mut conf = 0u64;
     let mut conf_err = None;
-    let judged = compare_pruned(&su, &sp, &mut out, &mut |face| match conform(&p, &sp, &face.w, true) {
-        Ok(true) => conf += 1,
-        Ok(false) => {}
-        Err(e) => conf_err = Some(e),
+    let judged = compare_pruned(&su, &sp, &mut out, &mut |face| {
+        let (n, e) = conform_face(&p, &sp, face, true);
+        conf += n;
+        if let Some(e) = e {
+            conf_err = Some(e)
+        }
     });
     out.add("traces_validated_against_impl", conf);
     if let Some(e) = conf_err {
@@ -232,9 +354,17 @@ fn opname(op: &Op) -> &'static str {
 
 pub fn run(tier: Tier) -> Report {
     let mut rep = Report::new("C03", tier, "model_checking");
-    let cs = cases(tier);
-    rep.set("programs", cs.len() as u64);
-    let total = par_cases(&cs, |_, c| run_case(c));
+    let is = inits(tier);
+    rep.set("initial_trees", is.len() as u64);
+    // one task per (initial tree, first operation); the long histories first
+    let mut tasks: Vec<(Init, usize)> = vec![];
+    for init in &is {
+        for k in 0..next_ops(init.out_dim(), &[], tier).len() {
+            tasks.push((init.clone(), k));
+        }
+    }
+    tasks.sort_by_key(|(i, _)| std::cmp::Reverse(limit_for(i, tier)));
+    let total = par_cases(&tasks, |_, (init, k)| run_init(init, *k, tier));
     rep.absorb(total);
     rep.set("bound", match tier {
         Tier::Quick => "histories of <= 3 operations (<= 2 from generator trees) over {infeasible_elimination, compose pruned/unpruned with 11-13 right operands, apply_func with 4 maps} ending in a pruning operation, from 1-D/2-D generator trees (<= 7 nodes, parallel/concurrent predicates, partial) and from_aff/from_poly roots",
